@@ -111,6 +111,26 @@ def run(res, tier, build_ok):
         elif want is not None and trip != want:
             res.violation("sense fields rc=%#x" % rc, "key/ASC/ASCQ reported %s, SPC positions hold %s" % (trip, want), {"sense": bytes(b).hex()})
         reqs.append(("sense " + hx(b), impl, want))
+    # ---- the optional field dump (`print_data=True`): constructing, str() and print() must not raise either, for any
+    #      response code (the dump goes to a scratch stream)
+    import contextlib
+    import io
+    dump = [b for i, b in enumerate(bufs) if i % 97 == 0 or not (0x70 <= (b[0] & 0x7F) <= 0x73)][:3000]
+    for i, b in enumerate(dump):
+        cls = classes[i % 3]
+        res.cases += 1
+        res.count("constructed with print_data=True")
+        sink = io.StringIO()
+        try:
+            with contextlib.redirect_stdout(sink):
+                e = cls(bytearray(b), True)
+                str(e)
+                print(e)
+        except Exception as ex:
+            res.violation("sense print_data rc=%#x raises %s" % (b[0] & 0x7F, type(ex).__name__),
+                          "CheckCondition(sense, print_data=True) / str() / print() raises %s for a %d-byte sense buffer with response code %#x" % (
+                              type(ex).__name__, len(b), b[0] & 0x7F), {"sense": bytes(b).hex(), "print_data": True})
+            break
     # ---- the same buffers as a target returns them: through SCSIDevice.execute / ISCSIDevice.execute (CHECK CONDITION),
     #      the error the caller catches must report the SPC positions of exactly the buffer the target sent
     sgio, iscsi = sys.modules["sgio"], sys.modules["iscsi"]
